@@ -44,7 +44,7 @@ example : (match discard (initSt .io [] true) with | .panic p => some p | _ => n
 
 /-- **symTerm_eq**: `SliceRead::parse_symbol_bytes` and `IoRead::parse_symbol_bytes` stop at the
     same bytes (in the model the two tables are literally the same expression). -/
-theorem C06_symTerm_eq : ∀ b : UInt8, symTermSlice b = symTermIo b := symTerm_eq
+theorem C06_symTerm_eq : ∀ b : UInt8, symTermSlice b = symTermIo b := symTermSlice_eq_io
 
 example : symTermSlice 59 = true ∧ symTermIo 59 = true ∧ symTermSlice 97 = symTermIo 97 := by decide
 
